@@ -408,9 +408,8 @@ func ruleC6(p *Prog, r *Report, scc *cgSCC) {
 						return fmt.Sprintf("%d × a size of the input", k.Int64())
 					}
 				}
-				if hasAtom(t.X, 0) && hasAtom(t.Y, 0) {
-					return "a product of two sizes of the input"
-				}
+				// len(a)*len(b) is the size of a product the function is about to build: that recurrence is
+				// rule C1's subject (and a recorded finding), not a growth of its own
 			case token.SHL:
 				if k, ok := t.Y.(*ssa.Const); ok && k.Value != nil && k.Int64() >= 1 && hasAtom(t.X, 0) {
 					return "a size of the input shifted left"
